@@ -145,9 +145,16 @@ fn main() {
   for wi in 0..args.n {
     let nseg = 1 + rng.below(2) as usize;
     let storage = if rng.chance(1, 2) { StorageType::InMemory } else { StorageType::Filesystem };
-    let mut w = World::build(&mut rng, 0, 3, 3, storage);
+    // every third world is small (tiny cloned segments, qx vocabulary): there the stress requests walk
+    // deep with a cursor, which is where block-max skipping first went wrong
+    let small = wi % 3 == 2;
+    let mut w = if small {
+      World::build(&mut rng, 1 + wi % 2 + 1, 5, 35, storage)
+    } else {
+      World::build(&mut rng, 0, 3, 3, storage)
+    };
     let mut longest = 0usize;
-    for _ in 0..nseg {
+    for _ in 0..(if small { 0 } else { nseg }) {
       let ndocs = if thorough && rng.chance(1, 4) { 1000 + rng.below(1000) } else { 100 + rng.below(500) } as usize;
       let docs: Vec<Value> = (0..ndocs).map(|_| gen_doc(&mut rng)).collect();
       longest = longest.max(docs.iter().filter(|d| d["body"].as_str().unwrap().contains("alpha")).count());
@@ -160,14 +167,32 @@ fn main() {
     bump(&mut dist, "longest_posting_list_sum", longest as u64);
     let reader = w.reader();
     let big = w.docs.len() + 5;
-    let nconf = if thorough { 10 } else { 6 };
+    let nconf = if small { 40 } else if thorough { 10 } else { 6 };
     for ci in 0..nconf {
-      let (query, kind) = gen_query(&mut rng);
-      let limit = 1 + rng.below(50) as usize;
-      let block: Option<u64> = match rng.below(4) {
-        0 => None,
-        1 => Some(1 + rng.below(8)),
-        _ => Some(1 + rng.below(300)),
+      // a third of the requests stresses block-max skipping: blocks of 1-3 postings, 2-3 plain terms
+      // (the threshold has to sink to the level of single-term documents: larger k or a cursor)
+      let stress = small || rng.chance(1, 3);
+      let (query, kind) = if small {
+        let a = rng.below(qx::WORDS.len() as u64) as usize;
+        let b = (a + 1 + rng.below(qx::WORDS.len() as u64 - 1) as usize) % qx::WORDS.len();
+        (json!(format!("{} {}", qx::WORDS[a], qx::WORDS[b])), "query_string")
+      } else if stress {
+        let nt = 2 + rng.below(2) as usize;
+        let ts = distinct_terms(&mut rng, nt, false);
+        let q: Vec<&str> = ts.iter().map(|t| t["value"].as_str().unwrap()).collect();
+        (json!(q.join(" ")), "query_string")
+      } else {
+        gen_query(&mut rng)
+      };
+      let limit = if small { 1 + rng.below(4) as usize } else { 1 + rng.below(50) as usize };
+      let block: Option<u64> = if stress {
+        Some(1 + rng.below(3))
+      } else {
+        match rng.below(4) {
+          0 => None,
+          1 => Some(1 + rng.below(8)),
+          _ => Some(1 + rng.below(300)),
+        }
       };
       let explicit_sort = rng.chance(1, 5);
       let mk = |execution: &str, limit: usize, cursor: Option<&str>| -> Value {
@@ -196,23 +221,44 @@ fn main() {
       // page 1 and, when there is one, the page after the cursor
       let p1 = qx::search(&reader, &qx::request(mk("bm25", limit, None))).expect("bm25 page 1");
       let mut stages: Vec<(&'static str, Option<String>, Vec<(u64, i64)>)> = vec![("first_page", None, hits_of(&p1))];
-      if let Some(c) = p1.next_cursor.clone() {
-        let p2 = qx::search(&reader, &qx::request(mk("bm25", limit, Some(&c)))).expect("bm25 page 2");
-        stages.push(("after_cursor", Some(c), hits_of(&p2)));
+      let mut next = p1.next_cursor.clone();
+      let max_pages = if small { 40 } else { 1 };
+      let mut page = 0;
+      while let Some(c) = next {
+        if page >= max_pages {
+          break;
+        }
+        page += 1;
+        let p = qx::search(&reader, &qx::request(mk("bm25", limit, Some(&c)))).expect("bm25 next page");
+        stages.push(("after_cursor", Some(c), hits_of(&p)));
+        next = p.next_cursor.clone();
       }
-      for (stage, cursor, reference) in stages {
+      // small worlds: the whole walk is one case (pages concatenated; every strategy gets bm25's cursors)
+      let groups: Vec<(&'static str, Vec<(Option<String>, Vec<(u64, i64)>)>)> = if small {
+        vec![("walk", stages.iter().map(|s| (s.1.clone(), s.2.clone())).collect())]
+      } else {
+        stages.iter().map(|s| (s.0, vec![(s.1.clone(), s.2.clone())])).collect()
+      };
+      for (stage, pages) in groups {
+        let reference: Vec<(u64, i64)> = pages.iter().flat_map(|p| p.1.clone()).collect();
+        let cursor: Option<String> = pages.last().and_then(|p| p.0.clone());
         let mut obs: Vec<(String, bool, Vec<(u64, i64)>)> = Vec::new();
         for ex in ["wand", "bmw"] {
-          let r = mk(ex, limit, cursor.as_deref());
-          std::fs::write(&progress, format!("world {wi} conf {ci} {r}\n")).ok();
-          match qx::search(&reader, &qx::request(r)) {
-            Ok(x) => obs.push((ex.to_string(), false, hits_of(&x))),
-            Err(e) => {
-              obs.push((ex.to_string(), true, vec![]));
-              bump(&mut dist, &format!("errors_{ex}"), 1);
-              bump(&mut dist, &format!("error_text: {}", &e[..e.len().min(60)]), 1);
+          let mut all: Vec<(u64, i64)> = Vec::new();
+          let mut failed = false;
+          for (cur, _) in pages.iter() {
+            let r = mk(ex, limit, cur.as_deref());
+            std::fs::write(&progress, format!("world {wi} conf {ci} {r}\n")).ok();
+            match qx::search(&reader, &qx::request(r)) {
+              Ok(x) => all.extend(hits_of(&x)),
+              Err(e) => {
+                failed = true;
+                bump(&mut dist, &format!("errors_{ex}"), 1);
+                bump(&mut dist, &format!("error_text: {}", &e[..e.len().min(60)]), 1);
+              }
             }
           }
+          obs.push((ex.to_string(), failed, all));
         }
         let custom = matches!(kind, "function_score" | "script_score" | "rank_feature" | "constant_score");
         let last = reference.last().map(|h| h.1).unwrap_or(0);
@@ -225,6 +271,12 @@ fn main() {
         ));
         let pruned_possible = full_hits.len() > limit + 1;
         bump(&mut dist, &format!("kind_{kind}"), 1);
+        if stress {
+          bump(&mut dist, "block_max_stress_requests", 1);
+        }
+        if small {
+          bump(&mut dist, "small_world_walk_pages", 1);
+        }
         bump(&mut dist, &format!("stage_{stage}"), 1);
         bump(&mut dist, match block { None => "block_default", Some(b) if b <= 8 => "block_1_8", _ => "block_9_300" }, 1);
         bump(&mut dist, if limit <= 5 { "limit_1_5" } else if limit <= 20 { "limit_6_20" } else { "limit_21_50" }, 1);
